@@ -67,6 +67,11 @@ impl FileTracker {
         new_file_number
     }
 
+    /// Stop tracking a FileNumber (its file could not be created).
+    pub fn remove(&mut self, file_number: &FileNumber) {
+        self.files.remove(file_number);
+    }
+
     /// Create a FileTracker from a list of file id to track.
     pub fn from_file_numbers(file_numbers: Vec<u64>) -> Option<FileTracker> {
         if file_numbers.is_empty() {
